@@ -407,8 +407,12 @@ def r18_9(ctx):
                   "the directory is %s" % peel(d).show()[:120])
     # the directory that is resolved is the *parent*: PathBuf::pop is applied before canonical_path
     pops = [bb for bb, t in f.calls() if mname(t) == "PathBuf::pop"]
-    cans = [bb for bb, t in f.calls() if (callee_name(t) or "").split("::")[-1] in ("canonical_path", "canonicalize")]
-    ctx.check(bool(pops) and all(any(f.dominates(pb, cb) for pb in pops) for cb in cans), "parent-resolved", f.where(),
+    cans = [(bb, t) for bb, t in f.calls() if (callee_name(t) or "").split("::")[-1] in ("canonical_path", "canonicalize")]
+    def of_parent(cb, ct):
+        if any(f.dominates(pb, cb) for pb in pops):
+            return True
+        return o.operand(ct["args"][0]).has_call("Path::parent", "PathBuf::parent")
+    ctx.check(bool(cans) and all(of_parent(cb, ct) for cb, ct in cans), "parent-resolved", f.where(),
               "only the parent directory is resolved (pop() dominates every canonical_path call)",
               "canonical_path is applied before the file name was split off: the final component (the document itself) is resolved")
 
